@@ -31,6 +31,10 @@ func main() {
 	switch id {
 	case "C01":
 		runC01(*tier, *seed, out)
+	case "C02":
+		runC02(*tier, *seed, out)
+	case "C15":
+		runC15(*tier, *seed, out)
 	case "C09":
 		runC09(*tier, *seed, out)
 	case "C13":
